@@ -41,7 +41,7 @@ def generate(rng):
     if prim["kind"] == "TapePrimary":
         prim["params"]["style"] = rng.choice(["grid", "grid", "lognormal"])
     K = rng.choice(DYADIC + [0.8, 0.9, 0.95, 1.05, 1.1])
-    steps = rng.choice([0, 1, 1, 2, 3, 5, 8, 12])
+    steps = rng.nsteps([0, 1, 1, 2, 3, 5, 8, 12])
     if prim["kind"] == "RoughBergomiStock" and steps == 0:
         steps = 1  # generate_rough_bergomi cannot produce a single time point (see C11)
     M = steps * dt
@@ -73,7 +73,7 @@ def generate(rng):
             d["clauses"] = gen_clauses(rng, rng.randint(1, 3))
     world = {"primaries": [prim], "derivatives": derivs, "models": [], "criteria": [], "hedgers": []}
     ids = [d["id"] for d in derivs]
-    n = rng.choice([1, 2, 3, 5, 8])
+    n = rng.npaths([1, 2, 3, 5, 8])
     ops = [{"op": "simulate", "target": rng.choice(ids), "n_paths": n, "torch_seed": rng.seed31()}]
     ncl = 100
     for _ in range(rng.randint(3, 13)):
